@@ -50,3 +50,22 @@ def unbounded_jobs(exe, pairs, maxlen, per_proc=40, deadline=600, with_shrink=Tr
             jobs.append((exe, ["--mode", "unbounded", "--initial", initial, "--max", mx, "--ops-batch", ";".join(ch),
                                "--deadline", deadline], deadline * len(ch) + 60))
     return jobs
+
+
+def tsan_guard(ctx, mode):
+    """Free-running ThreadSanitizer pass over the same producer/consumer bodies with the real std::atomic (race net for
+    the queues' plain private fields; the cooperative explorer cannot see those).  A report is a violation: TSan is exact
+    for the races it observes."""
+    try:
+        exe = vf.build("tsan_queues", ["engines/wmm/tsan_queues.cpp"], ["-O1", "-g", "-fsanitize=thread"])
+    except vf.HarnessError as e:
+        ctx.notes["tsan_guard"] = "not available: %s" % str(e)[:200]
+        return
+    rr = vf.run(exe, ["--mode", mode, "--records", 200000 if mode == "bounded" else 100000], timeout=600,
+                env={"TSAN_OPTIONS": "exitcode=66:halt_on_error=0"})
+    ctx.absorb(rr, "tsan_queues", require_done=False)
+    if rr.rc == 66 or "WARNING: ThreadSanitizer" in rr.stderr_tail:
+        ctx.violation({"kind": "tsan-data-race-on-queue-fields", "case": "free-running tsan guard, mode=%s" % mode,
+                       "detail": rr.stderr_tail[-800:]})
+    elif rr.rc != 0:
+        ctx.notes["tsan_guard"] = "guard run ended with rc %s" % rr.rc
